@@ -616,3 +616,122 @@ theorem removeURR_pres (s : Sess) (ie : RuleIE) (c : Ctx) :
       split <;> exact h1
 
 end UpfVerif.Core
+
+namespace UpfVerif.Core
+open UpfVerif.Spec
+
+theorem foldSimple_pres (f : Sess → RuleIE → Ctx → Sess × Ctx)
+    (hf : ∀ s ie c, Pres s (f s ie c).1 c (f s ie c).2) :
+    ∀ ies s c, Pres s (foldSimple f ies s c).1 c (foldSimple f ies s c).2 := by
+  intro ies
+  induction ies with
+  | nil => intro s c; exact Pres.refl s c
+  | cons ie ies ih =>
+    intro s c
+    have : foldSimple f (ie :: ies) s c = foldSimple f ies (f s ie c).1 (f s ie c).2 := by
+      simp [foldSimple, List.foldl]
+    rw [this]
+    exact (hf s ie c).trans (ih _ _)
+
+theorem foldRep_pres (f : Sess → RuleIE → Ctx → Sess × Ctx × List Report)
+    (hf : ∀ s ie c, Pres s (f s ie c).1 c (f s ie c).2.1) :
+    ∀ ies s c rs, Pres s (foldRep f ies s c rs).1 c (foldRep f ies s c rs).2.1 := by
+  intro ies
+  induction ies with
+  | nil => intro s c rs; exact Pres.refl s c
+  | cons ie ies ih =>
+    intro s c rs
+    have : foldRep f (ie :: ies) s c rs = foldRep f ies (f s ie c).1 (f s ie c).2.1 (rs ++ (f s ie c).2.2) := by
+      simp [foldRep, List.foldl]
+    rw [this]
+    exact (hf s ie c).trans (ih _ _ _)
+
+def StagePres (st : Stage) : Prop := ∀ s c rs, Pres s (st s c rs).1 c (st s c rs).2.1
+
+theorem runStages_pres (stages : List Stage) (h : ∀ st ∈ stages, StagePres st) :
+    ∀ s c rs, Pres s (runStages stages s c rs).1 c (runStages stages s c rs).2.1 := by
+  induction stages with
+  | nil => intro s c rs; exact Pres.refl s c
+  | cons st stages ih =>
+    intro s c rs
+    have e : runStages (st :: stages) s c rs = runStages stages (st s c rs).1 (st s c rs).2.1 (st s c rs).2.2 := by
+      simp [runStages, List.foldl]
+    rw [e]
+    exact (h st (by simp) s c rs).trans (ih (fun st' hst' => h st' (by simp [hst'])) _ _ _)
+
+theorem modStages_pres (r : ModReq) : ∀ st ∈ modStages r, StagePres st := by
+  intro st hst
+  simp only [modStages, List.mem_cons, List.mem_nil_iff, or_false] at hst
+  rcases hst with h | h | h | h | h | h | h | h | h | h | h | h | h | h | h | h <;> subst h
+  · intro s c rs; exact foldSimple_pres _ (fun s ie c => createSimple_pres s .far (Or.inl rfl) ie c) _ s c
+  · intro s c rs; exact foldSimple_pres _ (fun s ie c => createSimple_pres s .qer (Or.inr (Or.inl rfl)) ie c) _ s c
+  · intro s c rs; exact foldSimple_pres _ (fun s ie c => createURR_pres s ie c) _ s c
+  · intro s c rs; exact foldSimple_pres _ (fun s ie c => createSimple_pres s .bar (Or.inr (Or.inr rfl)) ie c) _ s c
+  · intro s c rs; exact foldSimple_pres _ (fun s ie c => createPDR_pres s ie c) _ s c
+  · intro s c rs; exact foldSimple_pres _ (fun s ie c => removeSimple_pres s .far (Or.inl rfl) ie c) _ s c
+  · intro s c rs; exact foldSimple_pres _ (fun s ie c => removeSimple_pres s .qer (Or.inr (Or.inl rfl)) ie c) _ s c
+  · intro s c rs; exact foldRep_pres _ (fun s ie c => removeURR_pres s ie c) _ s c rs
+  · intro s c rs; exact foldSimple_pres _ (fun s ie c => removeSimple_pres s .bar (Or.inr (Or.inr rfl)) ie c) _ s c
+  · intro s c rs; exact foldRep_pres _ (fun s ie c => removePDR_pres s ie c) _ s c rs
+  · intro s c rs; exact foldSimple_pres _ (fun s ie c => updateSimple_pres s .far ie c) _ s c
+  · intro s c rs; exact foldSimple_pres _ (fun s ie c => updateSimple_pres s .qer ie c) _ s c
+  · intro s c rs; exact foldRep_pres _ (fun s ie c => updateURR_pres s ie c) _ s c rs
+  · intro s c rs; exact foldSimple_pres _ (fun s ie c => updateSimple_pres s .bar ie c) _ s c
+  · intro s c rs; exact foldRep_pres _ (fun s ie c => updatePDR_pres s ie c) _ s c rs
+  · intro s c rs; exact foldRep_pres _ (fun s ie c => queryURR_pres s ie c) _ s c rs
+
+theorem estStages_pres (r : EstReq) : ∀ st ∈ estStages r, StagePres st := by
+  intro st hst
+  simp only [estStages, List.mem_cons, List.mem_nil_iff, or_false] at hst
+  rcases hst with h | h | h | h | h <;> subst h
+  · intro s c rs; exact foldSimple_pres _ (fun s ie c => createSimple_pres s .far (Or.inl rfl) ie c) _ s c
+  · intro s c rs; exact foldSimple_pres _ (fun s ie c => createSimple_pres s .qer (Or.inr (Or.inl rfl)) ie c) _ s c
+  · intro s c rs; exact foldSimple_pres _ (fun s ie c => createURR_pres s ie c) _ s c
+  · intro s c rs; exact foldSimple_pres _ (fun s ie c => createSimple_pres s .bar (Or.inr (Or.inr rfl)) ie c) _ s c
+  · intro s c rs; exact foldSimple_pres _ (fun s ie c => createPDR_pres s ie c) _ s c
+
+/-- the emission loop drops only URR entries marked `removed` — which, by the invariant, are no longer in the
+    data plane — so it keeps the invariant -/
+theorem emitUsars_sinv (s : Sess) (rs : List Report) (x : BitVec 32) (b : Bool) (dp : DP) (h : SInv s dp) :
+    SInv (emitUsars s rs x b).1 dp := by
+  unfold emitUsars
+  generalize hinit : ((s, []) : Sess × List UsarIE) = init
+  have hinv : SInv init.1 dp := by subst hinit; exact h
+  clear hinit
+  induction rs generalizing init with
+  | nil => simpa using hinv
+  | cons r rs ih =>
+    simp only [List.foldl_cons]
+    apply ih
+    split
+    · exact hinv
+    · rename_i info hget
+      simp only []
+      split
+      · -- the entry is dropped: it was marked removed, so no data-plane entry refers to it
+        rename_i hdrop
+        have hrm : info.removed = true := by
+          simp only [Bool.and_eq_true] at hdrop; exact hdrop.2
+        intro k i hm
+        obtain ⟨h1, h2⟩ := hinv k i hm
+        refine ⟨?_, ?_⟩
+        · cases k
+          · exact h1
+          · exact h1
+          · exact h1
+          · apply (keys_alDel _ _ _).mpr
+            refine ⟨?_, h1⟩
+            intro hc
+            subst hc
+            have := h2 rfl info hget
+            rw [hrm] at this; cases this
+          · exact h1
+        · intro hk inf hinf
+          subst hk
+          by_cases hi : i = r.urr
+          · subst hi; simp at hinf
+          · rw [alGet_alDel_other _ _ _ hi] at hinf
+            exact h2 rfl inf hinf
+      · exact sinv_urr_update init.1 dp r.urr info { info with seqn := info.seqn + 1 } hinv hget rfl
+
+end UpfVerif.Core
